@@ -642,4 +642,125 @@ theorem readinto_facts (st : DState) (size : Nat) :
     LoopFacts st [] size (readinto st size).1 (readinto st size).2 :=
   readLoop_facts (st.wire.length + 1) st size [] (by omega)
 
+/-! ### header folding -/
+
+theorem Env.get_set_same : ∀ (env : Env) (k v : Str), (env.set k v).get k = some v := by
+  intro env
+  induction env with
+  | nil => intro k v; simp [Env.set, Env.get]
+  | cons p rest ih =>
+    intro k v
+    obtain ⟨k', v'⟩ := p
+    unfold Env.set
+    by_cases h : (k' == k) = true
+    · simp [h, Env.get]
+    · simp only [h, Bool.false_eq_true, if_false]
+      have := ih k v
+      simp only [Env.get, List.find?_cons, h] at this ⊢
+      exact this
+
+theorem Env.get_set_other : ∀ (env : Env) (k k' v : Str), k' ≠ k → (env.set k v).get k' = env.get k' := by
+  intro env
+  induction env with
+  | nil =>
+    intro k k' v h
+    have : (k == k') = false := by simpa using fun e => h e.symm
+    simp [Env.set, Env.get, this]
+  | cons p rest ih =>
+    intro k k' v h
+    obtain ⟨k0, v0⟩ := p
+    unfold Env.set
+    by_cases h0 : (k0 == k) = true
+    · have e : k0 = k := by simpa using h0
+      have : (k0 == k') = false := by rw [e]; simpa using fun x => h x.symm
+      simp [h0, Env.get, this]
+    · simp only [h0, Bool.false_eq_true, if_false]
+      have := ih k k' v h
+      by_cases h1 : (k0 == k') = true
+      · simp [Env.get, h1]
+      · simp only [Env.get, List.find?_cons, h1] at this ⊢
+        exact this
+
+/-- the values (with `\r\n` removed) of the dash-named headers whose environ name is `k`, in order -/
+def valuesFor (k : Str) (hs : List (Str × Str)) : List Str :=
+  (hs.filter fun h => !h.1.contains '_' && envName h.1 == k).map fun h => dropCrlf h.2
+
+/-- comma-joining onto an optional previous value -/
+def joinStep (o : Option Str) (v : Str) : Option Str :=
+  match o with
+  | some x => some (x ++ ',' :: v)
+  | none => some v
+
+def joinFrom (o : Option Str) (vs : List Str) : Option Str := vs.foldl joinStep o
+
+theorem joinFrom_some (x : Str) : ∀ vs : List Str, joinFrom (some x) vs = some (x ++ vs.flatMap (fun v => ',' :: v)) := by
+  intro vs
+  induction vs generalizing x with
+  | nil => simp [joinFrom]
+  | cons v vs ih =>
+    simp only [joinFrom, List.foldl_cons, joinStep] at ih ⊢
+    rw [ih]
+    simp [List.append_assoc]
+
+theorem http_ne_content (k key : Str) (h : isContentKey key = true) : "HTTP_".toList ++ k ≠ key := by
+  intro e
+  subst e
+  simp [isContentKey] at h
+
+theorem foldl_foldHeader_get (k : Str) (hk : isContentKey k = false) : ∀ (hs : List (Str × Str)) (env : Env),
+    (hs.foldl foldHeader env).get ("HTTP_".toList ++ k)
+      = joinFrom (env.get ("HTTP_".toList ++ k)) (valuesFor k hs) := by
+  intro hs
+  induction hs with
+  | nil => intro env; rfl
+  | cons h t ih =>
+    intro env
+    simp only [List.foldl_cons]
+    rw [ih]
+    by_cases hu : h.1.contains '_' = true
+    · have hm : '_' ∈ h.1 := by simpa using hu
+      simp [foldHeader, hm, valuesFor]
+    · have hu' : h.1.contains '_' = false := by simpa using hu
+      have hm : '_' ∉ h.1 := by simpa using hu
+      by_cases hc : isContentKey (envName h.1) = true
+      · have hne : envName h.1 ≠ k := by intro e; rw [e, hk] at hc; cases hc
+        have hb : (envName h.1 == k) = false := by simpa using hne
+        simp only [foldHeader, hu', Bool.false_eq_true, if_false, hc, if_true]
+        rw [Env.get_set_other _ _ _ _ (http_ne_content k _ hc)]
+        simp [valuesFor, hm, hb]
+      · have hc' : isContentKey (envName h.1) = false := by simpa using hc
+        simp only [foldHeader, hu', Bool.false_eq_true, if_false, hc']
+        by_cases hkey : envName h.1 = k
+        · have hb : (envName h.1 == k) = true := by simpa using hkey
+          have hv : valuesFor k (h :: t) = dropCrlf h.2 :: valuesFor k t := by
+            simp [valuesFor, hm, hkey]
+          rw [hv, hkey]
+          cases hg : env.get ("HTTP_".toList ++ k) with
+          | none => simp [Env.get_set_same, joinFrom, joinStep]
+          | some old => simp [Env.get_set_same, joinFrom, joinStep]
+        · have hb : (envName h.1 == k) = false := by simpa using hkey
+          have hv : valuesFor k (h :: t) = valuesFor k t := by simp [valuesFor, hm, hkey]
+          have hne : "HTTP_".toList ++ k ≠ "HTTP_".toList ++ envName h.1 := by
+            intro e; exact hkey (List.append_cancel_left e).symm
+          rw [hv]
+          cases hg : env.get ("HTTP_".toList ++ envName h.1) with
+          | none => simp only; rw [Env.get_set_other _ _ _ _ hne]
+          | some old => simp only; rw [Env.get_set_other _ _ _ _ hne]
+
+theorem foldl_foldHeader_filter : ∀ (hs : List (Str × Str)) (env : Env),
+    hs.foldl foldHeader env = (hs.filter fun h => !h.1.contains '_').foldl foldHeader env := by
+  intro hs
+  induction hs with
+  | nil => intro env; rfl
+  | cons h t ih =>
+    intro env
+    by_cases hu : h.1.contains '_' = true
+    · simp only [List.foldl_cons, List.filter_cons, hu, Bool.not_true, Bool.false_eq_true, if_false]
+      rw [← ih]
+      have hm : '_' ∈ h.1 := by simpa using hu
+      simp [foldHeader, hm]
+    · have hu' : h.1.contains '_' = false := by simpa using hu
+      simp only [List.foldl_cons, List.filter_cons, hu', Bool.not_false, if_true]
+      exact ih _
+
 end Wz.Chunked
